@@ -44,7 +44,7 @@ def main():
                 sh("git", "-C", "/repo", "checkout", "--", ".")
                 sh("git", "-C", "/repo", "clean", "-fdq", "pipefunc")
             hits = {p: f for p, rc, f, err in res if rc == 1}
-            errs = {p: e for p, rc, f, err in res if rc == 2}
+            errs = {p: err for p, rc, f, err in res if rc == 2}
             rows.append((name, "DETECTED by " + ",".join(hits) if hits else ("analysis-error in " + ",".join(errs) if errs else "missed"),
                          "; ".join(f"{f[0][:160]}" for f in hits.values()) if hits else (str(list(errs.values())[0])[:160] if errs else "")))
     assert sh("git", "-C", "/repo", "status", "--porcelain").stdout.strip() == "", "/repo left dirty!"
